@@ -2037,6 +2037,7 @@ static int run_rescan_case(int which, int playing, struct source *src, int k, in
 	static int base_n;
 	static uint64_t base_pd, base_old_pd;
 	int nold = 0, shrinkold = 0, mode0, keep[6];
+	char fileid[128];
 	xmp_context ctx;
 	struct context_data *c;
 	struct xmp_frame_info fi;
@@ -2109,8 +2110,18 @@ static int run_rescan_case(int which, int playing, struct source *src, int k, in
 	for (i = 0; i < nrecs; i++)
 		if (recs[i].live && recs[i].p == (void *)c->p.scan)
 			scan_blocks++;
+	{
+		/* identifies the input in the trace: two corpus files may share a base name (test/test.xm and
+		 * test-dev/data/test.xm differ), and names may contain blanks */
+		const char *b = strrchr(src->path, '/') ? strrchr(src->path, '/') + 1 : src->path;
+		size_t q;
+		snprintf(fileid, sizeof(fileid), "%08x-%.80s", (unsigned)(fnv1a(FNV_INIT, src->path, strlen(src->path)) & 0xffffffffu), b);
+		for (q = 0; fileid[q]; q++)
+			if (fileid[q] == ' ' || fileid[q] == '=')
+				fileid[q] = '_';
+	}
 	printf("trace rescan which=%d playing=%d file=%s k=%d n=%d fired=%d rc=%s scan=%s owned=%d other=%d shrink=%d nold=%d shrinkold=%d mode=%s\n",
-	       which, playing, strrchr(src->path, '/') ? strrchr(src->path, '/') + 1 : src->path, k, n, fired,
+	       which, playing, fileid, k, n, fired,
 	       rc < 0 ? "neg" : "0", c->p.scan == scan0 ? "same" : "moved", scan_blocks,
 	       live_in_gen(gen) - (c->p.scan != scan0 ? scan_blocks : 0), nseq1 < c->m.mod.len, nold, shrinkold,
 	       mode0 == XMP_MODE_PROTRACKER ? "any" : c->p.mode == mode0 ? "old" : "new");
